@@ -1,6 +1,7 @@
 (* Runs the extracted C07 model (coq/Diag/Flags.v, Render.v).
    Input lines:
-     F <event> ...                 one frontend trace; events:
+     F <cfg> <event> ...           one frontend trace under configuration <cfg> = three bits
+                                   (inst_restores, scan_counts, nolink_checks); 000 = pinned, 111 = repaired; events:
          err:<s|p|r|c>:<w|e>:<code>  dir:<s|p|r|c>:<w|e>:<code>  bad sync sb se rr qb qe ab ae cd cr
          cw:<code>  ib:<mod>  ie:<0|1>  mb:<mod>  fin
        -> "F rejected <index>"  or
@@ -47,7 +48,9 @@ let event_of tok =
 let b2s b = if b then "1" else "0"
 let out_char = function Object -> "O" | Refused -> "R" | CodegenFailed -> "C"
 
-let flags toks =
+let flags cfgs toks =
+  let cfg = { cfg_inst_restores = cfgs.[0] = '1'; cfg_scan_counts = cfgs.[1] = '1'; cfg_nolink_checks = cfgs.[2] = '1' } in
+  let step = step cfg and compile = compile cfg in
   let evs = List.map event_of toks in
   (* step by step, to report the index of the first inadmissible event *)
   let rec go s i = function
@@ -79,7 +82,7 @@ let parse_slack s =
 let () =
   List.iter (fun line ->
     match split_ws line with
-    | "F" :: toks -> flags toks
+    | "F" :: cfgs :: toks -> flags cfgs toks
     | ["G"; l; c; lens; slack] ->
       let l = int_of_string l and c = int_of_string c in
       let lines = parse_lens lens and sl = parse_slack slack in
